@@ -66,9 +66,10 @@ class LeanError(Exception):
     pass
 
 
-def _lake_lock():
+def _lake_lock(shared=False):
+    """builds take the lock exclusively; read-only users of the build products (axiom audit, leanchecker) share it"""
     lock = open(LEAN / ".lake.lock.verif", "w")
-    fcntl.flock(lock, fcntl.LOCK_EX)
+    fcntl.flock(lock, fcntl.LOCK_SH if shared else fcntl.LOCK_EX)
     return lock
 
 
@@ -155,7 +156,7 @@ def audit(prop_module: str) -> dict:
     tmp = LEAN / f".audit_{prop_module.replace('.', '_')}.lean"
     tmp.write_text(audit_src)
     try:
-        lock = _lake_lock()
+        lock = _lake_lock(shared=True)
         try:
             p = subprocess.run(["lake", "env", "lean", tmp.name], cwd=LEAN, capture_output=True, text=True, timeout=1800)
         finally:
@@ -183,7 +184,7 @@ def audit(prop_module: str) -> dict:
 
 
 def leanchecker(modules: list[str]) -> tuple[bool, str]:
-    lock = _lake_lock()
+    lock = _lake_lock(shared=True)
     try:
         p = subprocess.run(["lake", "env", "leanchecker", *modules], cwd=LEAN, capture_output=True, text=True,
                            timeout=3000)
